@@ -636,6 +636,7 @@ func check(id, tier, repo string, writeEvidence bool) int {
 	exit := 0
 	newViol := 0
 	var knownLines, violLines, replayMisses []string
+	raceMinimised := 0
 	for _, c := range classes {
 		v := m.viol[c]
 		if what, ok := known[id+"|"+c]; ok {
@@ -653,6 +654,12 @@ func check(id, tier, repo string, writeEvidence bool) int {
 		if !ok {
 			replayMisses = append(replayMisses, fmt.Sprintf("replay of %s did not reproduce class %s: %s", v.Replay, c, why))
 			continue
+		}
+		if strings.HasPrefix(c, "C18/race/") && raceMinimised < 3 {
+			// the worker cannot minimise race classes (the detector never repeats
+			// a report inside one process): do it here, one fresh process per candidate
+			raceMinimised++
+			r.minimiseRace(useBin, v)
 		}
 		newViol++
 		violLines = append(violLines, fmt.Sprintf("VIOLATION property=%s replay=%s", id, v.Replay))
@@ -797,6 +804,72 @@ func (r *runner) envFor(bin, tag string) []string {
 		return r.raceEnv(tag)
 	}
 	return nil
+}
+
+// minimiseRace shrinks the replay script of a race-class violation by delta
+// debugging with one fresh process per candidate (schedule switches first,
+// then calls), within a budget, and rewrites the replay file.
+func (r *runner) minimiseRace(bin string, v *engine.ViolationReport) {
+	s, err := engine.LoadScript(v.Replay)
+	if err != nil {
+		return
+	}
+	start := time.Now()
+	tmp := filepath.Join(r.scratch, "racemin.json")
+	execs := 0
+	try := func(c *engine.Script) (bool, string) {
+		if execs >= 60 || time.Since(start) > 90*time.Second {
+			return false, ""
+		}
+		execs++
+		if err := c.Save(tmp); err != nil {
+			return false, ""
+		}
+		res := r.fanoutOne(bin, 0, 1, "racemin", append([]string{"SIM_REPLAY=" + tmp}, r.envFor(bin, "racemin")...), 2*time.Minute)
+		if res == nil || res.Replayed == nil {
+			return false, ""
+		}
+		for _, cl := range res.Replayed.Classes {
+			if strings.HasPrefix(cl, "C18/race/") {
+				return true, res.Replayed.Fingerprint
+			}
+		}
+		return false, ""
+	}
+	best := s
+	fp := v.Fingerprint
+	orig := len(s.Ops) + len(s.Sched)
+	for i := 0; i < len(best.Sched); {
+		c := best.Clone()
+		c.Sched = append(c.Sched[:i:i], c.Sched[i+1:]...)
+		if ok, f := try(c); ok {
+			best, fp = c, f
+		} else {
+			i++
+		}
+	}
+	for i := 0; i < len(best.Ops); {
+		if best.Ops[i].Op != "call" {
+			i++
+			continue
+		}
+		c := best.Clone()
+		c.Ops = append(c.Ops[:i:i], c.Ops[i+1:]...)
+		if ok, f := try(c); ok {
+			best, fp = c, f
+		} else {
+			i++
+		}
+	}
+	if len(best.Ops)+len(best.Sched) < orig {
+		if best.Expect != nil {
+			best.Expect.Fingerprint = fp
+		}
+		if best.Save(v.Replay) == nil {
+			v.Fingerprint = fp
+			v.MinOps = len(best.Ops) + len(best.Sched)
+		}
+	}
 }
 
 func raceFlag(bin string) string {
